@@ -331,6 +331,55 @@ theorem dev_width_wraps : (format [52, 50, 57, 52, 57, 54, 55, 51, 48, 49] (.int
 theorem dev_precision_over_i32 : (format [46, 50, 49, 52, 55, 52, 56, 51, 54, 52, 56] (.str [97])).view = some none ∧
     pyFormat [46, 50, 49, 52, 55, 52, 56, 51, 54, 52, 56] (.str [97]) = some [97] := by decide
 
+/-! floats (reference: `Spec.pyFormatFloat` on the exact decimal arithmetic `PV.Dec`) -/
+
+/-- z-flag-rejected: `format(-0.0, "z.1f")` is rejected; Python "0.0" -/
+theorem dev_z_flag_float : (format [122, 46, 49, 102] (.float 9223372036854775808)).view = some none ∧
+    pyFormat [122, 46, 49, 102] (PyValue.float 9223372036854775808) = some [48, 46, 48] := by decide +kernel
+
+/-- group-exp-type-panic: `format(1.0, ",e")` panics; Python "1.000000e+00" -/
+theorem dev_group_exp_panic_float : format [44, 101] (.float 4607182418800017408) = .panic ∧
+    pyFormat [44, 101] (PyValue.float 4607182418800017408) = some [49, 46, 48, 48, 48, 48, 48, 48, 101, 43, 48, 48] := by decide +kernel
+
+/-- group-nonfinite-zero-pad: `format(inf, "08,")` -/
+theorem dev_group_nonfinite : (format [48, 56, 44] (.float 9218868437227405312)).view = some (some [48, 44, 48, 48, 48, 44, 105, 110, 102]) ∧
+    pyFormat [48, 56, 44] (PyValue.float 9218868437227405312) = some [48, 48, 48, 48, 48, 105, 110, 102] := by decide +kernel
+
+/-- int-float-above-max-rejected: `format(f64::MAX + 1, "e")` -/
+theorem dev_int_above_f64max : (format [101] (.int 179769313486231570814527423731704356798070567525844996598917476803157260780028538760589558632766878171540458953514382464234321326889464182768467546703537516986049910576551282076245490090389328944075868508455133942304583236903222948165808559332123348274797826204144723168738177180919299881250404026184124858369)).view = some none ∧
+    pyFormat [101] (PyValue.int 179769313486231570814527423731704356798070567525844996598917476803157260780028538760589558632766878171540458953514382464234321326889464182768467546703537516986049910576551282076245490090389328944075868508455133942304583236903222948165808559332123348274797826204144723168738177180919299881250404026184124858369) = some [49, 46, 55, 57, 55, 54, 57, 51, 101, 43, 51, 48, 56] := by decide +kernel
+
+/-- float-group-in-exponent-text: `format(1e100, ",")` -/
+theorem dev_float_group_exponent : (format [44] (.float 6103021453049119613)).view = some (some [49, 101, 43, 44, 49, 48, 48]) ∧
+    pyFormat [44] (PyValue.float 6103021453049119613) = some [49, 101, 43, 49, 48, 48] := by decide +kernel
+
+/-- float-repr-near-integer: `format(0.9999999999999999, "")` -/
+theorem dev_float_near_integer : (format [] (.float 4607182418800017407)).view = some (some [49, 46, 48]) ∧
+    pyFormat [] (PyValue.float 4607182418800017407) = some [48, 46, 57, 57, 57, 57, 57, 57, 57, 57, 57, 57, 57, 57, 57, 57, 57, 57] := by decide +kernel
+
+/-- float-repr-tie-rounds-up: `format(600377706905611.25, "")` -/
+theorem dev_float_tie : (format [] (.float 4828158222569046106)).view = some (some [54, 48, 48, 51, 55, 55, 55, 48, 54, 57, 48, 53, 54, 49, 49, 46, 51]) ∧
+    pyFormat [] (PyValue.float 4828158222569046106) = some [54, 48, 48, 51, 55, 55, 55, 48, 54, 57, 48, 53, 54, 49, 49, 46, 50] := by decide +kernel
+
+/-- float-default-type-alt-no-point: `format(1e100, "#")` -/
+theorem dev_float_alt_no_point : (format [35] (.float 6103021453049119613)).view = some (some [49, 101, 43, 49, 48, 48]) ∧
+    pyFormat [35] (PyValue.float 6103021453049119613) = some [49, 46, 101, 43, 49, 48, 48] := by decide +kernel
+
+/-- float-default-type-precision-zero: `format(0.5, ".0")` -/
+theorem dev_float_precision_zero : (format [46, 48] (.float 4602678819172646912)).view = some (some [53, 101, 45, 48, 49]) ∧
+    pyFormat [46, 48] (PyValue.float 4602678819172646912) = some [48, 46, 53] := by decide +kernel
+
+/-- float-default-type-precision-no-dot-zero: `format(1.0, ".5")` -/
+theorem dev_float_no_dot_zero : (format [46, 53] (.float 4607182418800017408)).view = some (some [49]) ∧
+    pyFormat [46, 53] (PyValue.float 4607182418800017408) = some [49, 46, 48] := by decide +kernel
+
+/-- float-percent-overflow-alt: `format(f64::MAX, "#.0%")` -/
+theorem dev_float_percent_overflow : (format [35, 46, 48, 37] (.float 9218868437227405311)).view = some (some [105, 110, 102, 46, 37]) ∧
+    pyFormat [35, 46, 48, 37] (PyValue.float 9218868437227405311) = some [105, 110, 102, 37] := by decide +kernel
+/-- precision-over-65535-panic: `format(1.0, ".65536f")` (CPython prints 65536 digits) -/
+theorem dev_precision_over_u16 : format [46, 54, 53, 53, 51, 54, 102] (.float 4607182418800017408) = .panic := by
+  decide +kernel
+
 end witnesses
 
 end PV.C18
